@@ -28,8 +28,8 @@ def kron_outputs(a, b):
     return r.reshape(B, a.shape[1] * b.shape[1], a.shape[2] * b.shape[2])
 
 
-def oracle_multiply(sc1, sc2, sp, ys, sem, fold, opt):
-    ctx = evalc.make_ctx(sem, fold, opt)
+def oracle_multiply(sc1, sc2, sp, ys, sem, fold, opt, ctx=None):
+    ctx = ctx or evalc.make_ctx(sem, fold, opt)
     w = max(evalc.width_of(sc1), evalc.width_of(sc2))
     got = eval_on(ctx, sp, ys, sem, w)
     a = eval_on(ctx, sc1, ys, sem, w)
@@ -38,24 +38,24 @@ def oracle_multiply(sc1, sc2, sp, ys, sem, fold, opt):
     return close(got, exp, rtol=1e-6, atol=1e-8), {"observed": got.tolist(), "expected": exp.tolist()}
 
 
-def oracle_evidence(sc, se, obs, ys, sem, fold, opt):
-    ctx = evalc.make_ctx(sem, fold, opt)
+def oracle_evidence(sc, se, obs, ys, sem, fold, opt, ctx=None):
+    ctx = ctx or evalc.make_ctx(sem, fold, opt)
     w = evalc.width_of(sc)
     got = eval_on(ctx, se, ys, sem, w)
     exp = eval_on(ctx, sc, [{**y, **obs} for y in ys], sem, w)
     return close(got, exp), {"observed": got.tolist(), "expected": exp.tolist()}
 
 
-def oracle_concat(scs, scat, ys, sem, fold, opt):
-    ctx = evalc.make_ctx(sem, fold, opt)
+def oracle_concat(scs, scat, ys, sem, fold, opt, ctx=None):
+    ctx = ctx or evalc.make_ctx(sem, fold, opt)
     w = max(evalc.width_of(s) for s in scs)
     got = eval_on(ctx, scat, ys, sem, w)
     exp = np.concatenate([eval_on(ctx, s, ys, sem, w) for s in scs], axis=1)
     return close(got, exp), {"observed": got.tolist(), "expected": exp.tolist()}
 
 
-def oracle_conjugate(sc, scj, ys, sem, fold, opt):
-    ctx = evalc.make_ctx(sem, fold, opt)
+def oracle_conjugate(sc, scj, ys, sem, fold, opt, ctx=None):
+    ctx = ctx or evalc.make_ctx(sem, fold, opt)
     w = evalc.width_of(sc)
     got = eval_on(ctx, scj, ys, sem, w)
     exp = np.conj(eval_on(ctx, sc, ys, sem, w))
